@@ -23,6 +23,25 @@ Statement clauses checked on the REAL `yamlpath.YAMLPath` (oracle written from t
                  text `original` of the path before.  (Only exception, counted as an out-of-scope
                  observation: the root path written "/" comes back as "" -- both are the empty path.)
 
+Witness key:  C08/<clause>/<what differs>/<shape>[/dot-only|/slash-only]
+  clause        parse | canon-stringify | canon-reparse | canon-fixed-point | eq | append | pop
+  what differs  coarse class computed from the failing run: segment-count, kind-changed,
+                <kind>.<field> (key.text, search.op, kw.params, coll.inner ...), raises:<Type>[@file:func],
+                eq: <which pair>:eq-<got>-but-segments-<equal|differ>, pop: segment-still-present:... |
+                path-damaged | text-not-restored
+  shape         kinds + writing styles (never the texts) of a locally minimal sub-sequence that still
+                fails the same clause in the same way (greedy shrinking: drop an entry, replace an
+                entry by the plain key `a`, simplify attribute / term / parameters, reduce a
+                collector's inner path); `/dot-only` or `/slash-only` when that minimal sequence fails
+                in one notation only.  The one class known to have a single cause whatever the segment
+                (pop() of a segment whose appended text is not the canonical rendering) has no shape.
+
+Bounds: quick = every sequence of <= 2 entries of the compact vocabulary (~145 entries) + ~1400 single
+segments with exhaustive texts (keys <= 2 characters, terms 1 character over the 15-character
+alphabet) in 3 contexts + 3000 random sequences of 4..6 entries; thorough = compact^<=2, core(81)^3,
+medium(~455)^2, ~15000 single segments (keys <= 3, terms / attributes / parameters <= 2 characters)
+in 3 contexts, 150000 random sequences.  Everything in both notations.
+
 Excluded by the statement (counted with out_of_scope, never a witness): dot-notation texts whose
 first character is '/'; keys that begin with '&', contain '*' or a backslash, or are empty.
 
@@ -181,21 +200,15 @@ def expected(entries):
     return out
 
 
-class Unparsable(Exception):
-    """A nested collector expression / keyword parameter list could not be parsed."""
-    def __init__(self, where, exc):
-        super().__init__("%s: %s: %s" % (where, type(exc).__name__, exc))
-        self.where = where
-        self.exc = exc
-
-
-def observe(path, unescaped_segments=None, depth=0):
+def observe(path, depth=0):
     """Normal form of `path.escaped` (collector inner paths from `path.unescaped`, see header)."""
     esc = list(path.escaped)
     une = list(path.unescaped)
     out = []
     for i, (typ, attrs) in enumerate(esc):
-        if typ is T.KEY:
+        if typ in (T.KEY, T.ANCHOR) and not isinstance(attrs, str):
+            out.append(("?", typ.name, "%s:%s" % (type(attrs).__name__, attrs)))     # e.g. an ANCHOR holding CollectorTerms
+        elif typ is T.KEY:
             out.append(("key", attrs))
         elif typ is T.INDEX:
             if isinstance(attrs, int):
@@ -660,6 +673,7 @@ def shape_of(entries):
 
 
 _PLAIN_KEY = (("key", "a"), "esc")
+_PLAIN_IDX = (("idx", 0), "-")
 
 
 def _simpler(entry):
@@ -685,8 +699,11 @@ def _simpler(entry):
         for inner in _reductions(tuple(seg[2])):
             if inner:
                 yield (("coll", seg[1], tuple(inner)), style)
-    if entry != _PLAIN_KEY and not (k == "coll" and seg[1] != ""):
-        yield _PLAIN_KEY
+    if not (k == "coll" and seg[1] != ""):
+        if entry != _PLAIN_KEY:
+            yield _PLAIN_KEY
+        if entry != _PLAIN_KEY and entry != _PLAIN_IDX:
+            yield _PLAIN_IDX          # a bracketed segment may be what matters (no separator before it)
 
 
 def _reductions(entries):
@@ -768,7 +785,7 @@ def P(kind, *a):
 
 
 def compact_vocabulary():
-    """~150 entries: every segment kind, every operator / inversion form, every special character in
+    """~140 entries: every segment kind, every operator / inversion form, every special character in
     key, attribute, term and parameter position, in every writing style; 4 out-of-scope keys."""
     v = [K("a"), K("b1"), K("1")]
     v += [K("a%sb" % c) for c in SPECIALS]
@@ -785,7 +802,8 @@ def compact_vocabulary():
     v += [S_(False, "a", "=", "a%sb" % c) for c in SPECIALS]
     v += [S_(False, "a", "=", "a%sb" % c, "dq" if c != '"' else "sq") for c in SPECIALS]
     v += [S_(False, "a", "=", "", "dq"), S_(False, "a", "=", "1"), S_(False, ".", "=~", "a b"),
-          S_(False, "a", "=~", "^a/b$"), S_(True, "a", "=~", "[ab]+(1)")]
+          S_(False, "a", "=~", "^a/b$"), S_(True, "a", "=~", "[ab]+(1)"), S_(False, "a", "=~", "/["),
+          S_(False, "a", "=~", "] ")]
     v += [P("all"), P("trav")]
     v += [KW(False, "name", ()), KW(False, "parent", ()), KW(False, "parent", ("2",)),
           KW(False, "has_child", ("a",)), KW(True, "has_child", ("a",)), KW(False, "max", ("a",)),
@@ -793,13 +811,17 @@ def compact_vocabulary():
           KW(False, "has_child", ("a b",), "sq"), KW(False, "has_child", ("a.b",)), KW(False, "max", ("a", "b"))]
     v += [C("", [K("a")]), C("", [K("a"), K("b1")]), C("", [K("a"), P("idx", 0)]),
           C("", [S_(False, "a", "=", "b")]), C("", [K("a.b")]), C("", [C("", [K("a")]), C("+", [K("b1")])]),
-          C("+", [K("b1")]), C("-", [K("b1")]), C("&", [K("b1")])]
+          C("+", [K("b1")]), C("-", [K("b1")]), C("&", [K("b1")]),
+          C("", [P("anchor", "a")]), C("", [P("anchor", "a"), K("b1")]), C("", [P("anchor", "a"), C("", [K("b1")])]),
+          C("", [P("anchor", "a"), KW(False, "has_child", ("a",))]),
+          C("", [S_(False, ".", "=~", "a b")]), C("", [KW(False, "has_child", ("a'b",))]),
+          C("", [KW(False, "has_child", ("a'b",), "dq")])]
     v += [K("&a"), K("a*b"), K("a\\b"), K("", "sq")]             # out of scope, counted
     return v
 
 
 def core_vocabulary():
-    """80 entries for the length-3 products: all kinds, every special once in key position."""
+    """81 entries for the length-3 products: all kinds, every special once in key position."""
     v = [K("a"), K("b1"), K("1")]
     v += [K("a%sb" % c) for c in SPECIALS]
     v += [K(c) for c in (".", "/", " ", "'", "[", "(")]
@@ -817,7 +839,8 @@ def core_vocabulary():
           KW(True, "has_child", ("a",)), KW(False, "max", ()), KW(False, "has_child", ("a b",), "sq"),
           KW(False, "has_child", ("a.b",)), KW(False, "max", ("a", "b"))]
     v += [C("", [K("a")]), C("", [K("a"), K("b1")]), C("", [S_(False, "a", "=", "b")]), C("", [K("a.b")]),
-          C("", [C("", [K("a")]), C("+", [K("b1")])]), C("+", [K("b1")]), C("-", [K("b1")]), C("&", [K("b1")])]
+          C("", [C("", [K("a")]), C("+", [K("b1")])]), C("+", [K("b1")]), C("-", [K("b1")]), C("&", [K("b1")]),
+          C("", [P("anchor", "a"), K("b1")])]
     v += [K("&a"), K("a*b"), K("a\\b")]                        # out of scope, counted
     return v
 
@@ -914,7 +937,9 @@ def check_case(entries, sep, neighbours=(), coll=None):
                 nbs.append((how, nb))
     for f in ev_neighbours(entries, sep, nbs):
         outcome.add((f.clause, f.kind))
-        fails.append(("C08/%s/%s/%s" % (f.clause, f.kind, f.shape), f))
+        # shape of a neighbour failure: only HOW the neighbour differs (the kinds are in `what`)
+        f.detail = "%s (%s)" % (f.detail, f.shape)
+        fails.append(("C08/%s/%s/%s" % (f.clause, f.kind, f.shape.split(":")[0]), f))
     if coll is not None:
         for o in oos:
             coll.out_of_scope(o)
@@ -1001,7 +1026,7 @@ def _work_product(chunk, vname, tier, n):
             nbs = []
             if n:
                 other = V[(idxs[-1] + 1) % v]
-                nbs.append(("last:%s-vs-%s" % (_sig_entry(entries[-1]), _sig_entry(other)), entries[:-1] + [other]))
+                nbs.append(("last-replaced:%s-vs-%s" % (_sig_entry(entries[-1]), _sig_entry(other)), entries[:-1] + [other]))
                 nbs.append(("without-last:%s" % _sig_entry(entries[-1]), entries[:-1]))
                 nbs.append(("first-doubled:%s" % _sig_entry(entries[0]), entries[:1] + entries))
             cnt += _do_case(coll, sigs, entries, nbs, "%s^%d" % (vname, n))
@@ -1032,7 +1057,7 @@ def _work_big(chunk, tier):
         for i in range(lo, hi):
             j, c = divmod(i, 3)
             entries = ctx(V[j], c)
-            nbs = [("%s-vs-%s" % (_sig_entry(V[j]), _sig_entry(V[(j + d) % v])), ctx(V[(j + d) % v], c)) for d in (1, 7)]
+            nbs = [("replaced:%s-vs-%s" % (_sig_entry(V[j]), _sig_entry(V[(j + d) % v])), ctx(V[(j + d) % v], c)) for d in (1, 7)]
             cnt += _do_case(coll, sigs, entries, nbs, "big/%s" % _CONTEXTS[c])
             if len(coll.samples) < 1 and i % 1013 == 5:
                 coll.samples.append({"dot": render(entries, "."), "slash": render(entries, "/"),
@@ -1066,7 +1091,7 @@ def _work_random(chunk, tier, seed):
             nb = list(entries)
             k = rng.randrange(len(nb))
             nb[k] = rng.choice(V)
-            how = "%s-vs-%s" % (_sig_entry(entries[k]), _sig_entry(nb[k]))
+            how = "replaced:%s-vs-%s" % (_sig_entry(entries[k]), _sig_entry(nb[k]))
             cnt += _do_case(coll, sigs, entries, [(how, nb)] if well_formed(nb) else [], "random")
     return _finish(coll, cnt, sigs)
 
